@@ -89,7 +89,11 @@ pub enum UiOp {
     JoinWriters,
     /// event loop: tick only when a notification arrived since the last tick; stop when quiet
     Drain(u64),
+    /// the same, but without the initial tick: strictly notification driven
+    DrainNotified(u64),
     Dump,
+    /// forced replay: hold role/site until another role/site has happened (see sched::Rule)
+    Rule(&'static str, &'static str, &'static str, &'static str),
 }
 
 #[derive(Clone, Debug)]
@@ -117,6 +121,7 @@ fn set_pattern(mp: &mut MultiPattern, text: &str, append: bool) {
 }
 
 struct Ctx {
+    last_tick_seq: u64,
     sched: Arc<Sched>,
     cols: u32,
     stream: u64,
@@ -213,7 +218,7 @@ pub fn run_scenario(sc: &Scenario, policy: Policy, run_id: u64, lines: &mut Vec<
     let na = nucleo::verif::nucleo_addrs(&nucleo);
     let named = vec![("canceled".to_string(), na.canceled), ("should_notify".to_string(), na.should_notify)];
     let mut vec_addrs: Vec<(String, usize, usize, usize)> = vec![("s0".to_string(), na.inflight, na.buckets, na.nbuckets)];
-    let mut cx = Ctx { sched: sched.clone(), cols: sc.cols, stream: 0, cur_pat: 0, handles: HashMap::new(), keys };
+    let mut cx = Ctx { last_tick_seq: 0, sched: sched.clone(), cols: sc.cols, stream: 0, cur_pat: 0, handles: HashMap::new(), keys };
     *CURRENT.lock().unwrap() = Some(Current { sched: sched.clone(), vec_addrs: vec_addrs.clone(), named: named.clone(), path: path.to_string(), run: run_id });
     let mut writers: Vec<Option<(usize, Vec<WOp>)>> = sc.writers.iter().cloned().map(Some).collect();
     let mut joins: Vec<std::thread::JoinHandle<()>> = Vec::new();
@@ -230,6 +235,7 @@ pub fn run_scenario(sc: &Scenario, policy: Policy, run_id: u64, lines: &mut Vec<
                 sched.user("ret", "\"api\":\"reparse\"".to_string());
             }
             UiOp::Tick(t) => {
+                cx.last_tick_seq = sched.seq();
                 do_tick(&mut nucleo, &cx, *t);
             }
             UiOp::Restart(clear) => {
@@ -303,10 +309,14 @@ pub fn run_scenario(sc: &Scenario, policy: Policy, run_id: u64, lines: &mut Vec<
                 sched.user("joined", String::new());
             }
             UiOp::Dump => ui_dump(&nucleo, &cx),
-            UiOp::Drain(timeout) => {
+            UiOp::Rule(br, bs, ur, us) => {
+                sched.add_rule((br, bs), (ur, us));
+                sched.user("rule", format!("\"block\":\"{}@{}\",\"until\":\"{}@{}\"", br, bs, ur, us));
+            }
+            UiOp::Drain(timeout) | UiOp::DrainNotified(timeout) => {
                 // an event loop that only ticks when notified (or once, right after its own edits)
-                let mut last_tick_seq = 0;
-                let mut first = true;
+                let mut last_tick_seq = cx.last_tick_seq;
+                let mut first = matches!(op, UiOp::Drain(_));
                 for _round in 0..12 {
                     sched.wait_quiet(Duration::from_millis(4));
                     let pending = sched.count_since("notify", last_tick_seq) > 0;
@@ -390,6 +400,14 @@ pub fn scenarios(thorough: bool, rng: &mut StdRng) -> Vec<Scenario> {
       vec![(1, vec![Extend(vec![1, 2, 3])]), (2, vec![Push(2001), Push(2002)])]);
     s("restart-empty-pattern", 1, 1, vec![NewInjector(1), StartWriter(0), Tick(10), Restart(false), NewInjector(2), StartWriter(1), Tick(0), JoinWriters, Drain(10)],
       vec![(1, vec![Push(1), Push(2)]), (2, vec![Push(1001)])]);
+    // forced replays of the protocol model's lost wake-up counterexamples (spec -> impl): Nucleo.tla TickTryFail ..
+    // NRead .. RunEnd .. TickArm (cancelling and plain tick) and Notify .. TickBegin .. TickTryFail .. TickArm .. RunEnd
+    s("forced-lost-wakeup-cancelling-tick", 1, 1, vec![NewInjector(1), StartWriter(0), JoinWriters, Reparse(1), Rule("main", "tick.try_lock_failed", "pool", "run.end"), Tick(0), DrainNotified(0)],
+      vec![(1, vec![Extend(vec![0, 1, 2])])]);
+    s("forced-lost-wakeup-plain-tick", 1, 1, vec![NewInjector(1), Reparse(1), Tick(50), StartWriter(0), JoinWriters, Tick(0), Rule("main", "tick.try_lock_failed", "pool", "run.end"), Tick(0), DrainNotified(0)],
+      vec![(1, vec![Extend(vec![0, 1, 2])])]);
+    s("forced-lost-wakeup-notify-before-unlock", 1, 1, vec![NewInjector(1), StartWriter(0), JoinWriters, Reparse(1), Tick(0), Rule("pool", "run.end", "main", "tick.armed"), DrainNotified(0)],
+      vec![(1, vec![Extend(vec![0, 1, 2])])]);
     // handle bookkeeping
     s("handles", 1, 1, vec![NewInjector(1), CloneInjector(2, 1), Dump, DropInjector(1), Restart(false), Dump, NewInjector(3), Tick(0), DropInjector(2), Restart(true), Tick(0), NewInjector(4), CloneInjector(5, 4), Restart(false), Restart(false), DropInjector(4), Tick(10), Dump,
       Restart(false), NewInjector(6), Dump, Restart(false), Dump, NewInjector(7), Restart(true), NewInjector(8), CloneInjector(9, 8), Restart(true), Dump, DropInjector(6), DropInjector(8), Dump, Tick(0), Dump], vec![]);
